@@ -57,6 +57,7 @@ def parseRule4 (res thr iv ref : String) : Option Rule :=
 
 /-- `res,thr,iv,ref` (reject) or `res,thr,iv,ref,q<MaxQueueingTimeMs>` (throttling) -/
 def parseRule (s : String) : Option Rule :=
+  if s = "nil" then some { res := 0, thr := .invalid, iv := 0 } else     -- a nil *Rule in the list: ignored
   match s.splitOn "," with
   | [res, thr, iv, ref] => parseRule4 res thr iv ref
   | [res, thr, iv, ref, q] =>
@@ -322,6 +323,8 @@ def withCustom (step : DSt → List String → DSt × Option String) (count : DS
     | "loadres" :: res :: n :: rs => (["loadres", res, n], rs)
     | _ => (ts, [])
   let (plain, customs) := splitCustom rs
+  -- `LoadRulesOfResource("", …)`: "empty resource" error before anything is looked at
+  if head.take 2 == ["loadres", "_"] then ({ st with nrules := st.nrules + rs.length }, some s!"err {count st}") else
   if customs.isEmpty then step st ts else
   -- the requests issued from inside the rebuild, up to a panic
   let rec go (st : DSt) (acc : List String) : List String → DSt × List String × Bool
